@@ -9,8 +9,12 @@ package feeds
 // signal total with exactly its stored power and the interval the formula gives; in all other blocks the list is
 // left alone. (Totality of the end-blocker: see CalculatePrice; the modulus needs a positive update interval,
 // which parameter validation guarantees.)
+// C06: ... and in EVERY block, the blocks that recompute the list included, the prices of all current feeds are
+// calculated (exactly once): on an update block the old prices have just been deleted, so skipping the calculation would
+// leave every feed without a price.
 //@ func EndBlocker
-//@ modifies Store_feeds, Other
+//@ modifies Store_feeds, Other, Count_CalculatePrices
+//@ ensures Count_CalculatePrices == old(Count_CalculatePrices) + 1
 //@ requires keeper.feedsParams(Store_feeds).CurrentFeedsUpdateInterval > 0
 //@ requires ext("LegacyNewDecFromStr#1", keeper.feedsParams(Store_feeds).PriceQuorum) == nil
 //@ ensures err == nil
